@@ -1407,6 +1407,8 @@ def _peer_compare(res, op, im, mo):
                 return "open connections differ (impl %s, model %s)" % (ac[0], bc[0])
             if bc[1] == "0" and ac[1] != "0":
                 return "background tasks left behind (impl bucket %s, model 0)" % ac[1]
+            if len(ac) > 3 and len(bc) > 2 and int(ac[3]) > int(bc[2]):
+                return "watchdog tasks of closed connections still running (impl %s, model %s)" % (ac[3], bc[2])
     return None
 
 
@@ -1446,6 +1448,9 @@ def _explore_peer(ctx, res, replay_ops, which):
                 f = tok[2:].split(":")
                 if int(f[0]) > 0 or f[1] != "0":
                     bad = "connections / background tasks left behind after completed requests: %s established, goroutine bucket %s" % (f[0], f[1])
+                elif len(f) > 3 and int(f[3]) > 0:
+                    bad = ("%s go-diameter watchdog task(s) still running after every request had returned and every connection was closed "
+                           "(one per request whose answer did not arrive within the timeout; %s goroutines above the baseline)" % (f[3], f[2]))
             if which == "C18" and tok.startswith("n=") and tok.endswith(":0"):
                 bad = "an update did not complete"
         if bad:
